@@ -311,8 +311,10 @@ def run(ctx):
         r11(ctx, rep, v)
         r12(ctx, rep, v)
         n_shared += r13(ctx, rep, v, found)
-    r14(ctx, rep)
-    r15(ctx, rep)
+    ctx.attempt(r14, ctx, rep)
+    rep.rule('R1.7', 'an iterator that re-seeds a random generator so that every pass yields the same rows does so on every path before its first yield (seed 0 / \'\' are seeds too)')
+    ctx.attempt(r17, ctx, rep)
+    ctx.attempt(r15, ctx, rep)
     # R1.6: a pass served from the sort caches replays the pass that filled them: same merge, same key function, same
     # direction (the C05 R5.2 obligations of SortView)
     from . import c05 as _c05
@@ -782,6 +784,54 @@ def r14(ctx, rep):
                     n += 1
                     rep.violated('R1.4', fn, norm(node), '%s changes process-global state' % t, node)
     rep.count('global_state_sites', n)
+
+
+# ------------------------------------------------------------------------ R1.7
+def r17(ctx, rep):
+    """Repeatability of the dummy tables rests on re-seeding at the start of every pass.  If the generator function of a
+    view contains a seeding call (X.seed(...)), every path from its entry to its first yield must execute one."""
+    from ..ladder import paths
+    n = 0
+    for v in ctx.views.real_views():
+        it = v.cls.methods.get('__iter__')
+        if it is None or not it.is_generator:
+            continue
+        seeds = [c for c in own_nodes(it.node) if isinstance(c, ast.Call) and isinstance(c.func, ast.Attribute) and
+                 c.func.attr == 'seed']
+        if not seeds:
+            continue
+        n += 1
+        bad = None
+        for p in paths(it.node.body, {}, enter_loops=False, limit=128):
+            done = False
+            for st in p.effects:
+                if isinstance(st, (ast.For, ast.While, ast.With)):
+                    ys = [x for x in ast.walk(st) if isinstance(x, (ast.Yield, ast.YieldFrom))]
+                    sc = [x for x in ast.walk(st) if any(x is c for c in seeds)]
+                    if sc and not ys:
+                        done = True
+                    if ys:
+                        break
+                    continue
+                if any(x is c for x in ast.walk(st) for c in seeds):
+                    done = True
+                if any(isinstance(x, (ast.Yield, ast.YieldFrom)) for x in ast.walk(st)):
+                    break
+            else:
+                if p.kind in ('return', 'raise') and not done:
+                    continue        # the path ends before anything is yielded
+            if not done:
+                bad = p
+                break
+        if bad is None:
+            rep.held('R1.7', it, norm(seeds[0]), 're-seeded on every path before the first yield', seeds[0])
+        else:
+            cond = ', '.join('%s is %s' % (norm(t), o) for t, o in bad.free) or 'unconditionally'
+            rep.violated('R1.7', it, norm(seeds[0]),
+                         'the pass can reach its first yield without re-seeding (when %s): for such a seed the rows depend on '
+                         'what was drawn from the generator before, so a second pass, or a pass after an abandoned one, '
+                         'yields different rows' % cond, seeds[0])
+    rep.count('reseeding_iterators', n)
 
 
 # ------------------------------------------------------------------------ R1.5
